@@ -78,7 +78,7 @@ theorem strLt_asymm {a b : Str} (h : strLt a b = true) : strLt b a = false := by
         by_cases h2 : c.toNat = d.toNat
         · simp only [h2, if_true] at h
           have : ¬ d.toNat < c.toNat := by omega
-          simp [this, h2, ih h]
+          simp [h2, ih h]
         · simp [h2] at h
 
 theorem strLt_trans {a b c : Str} (h1 : strLt a b = true) (h2 : strLt b c = true) :
@@ -118,7 +118,7 @@ theorem strLt_trans {a b c : Str} (h1 : strLt a b = true) (h2 : strLt b c = true
               · simp only [b2, if_true] at h2
                 have n1 : ¬ x.toNat < e.toNat := by omega
                 have n2 : x.toNat = e.toNat := by omega
-                simp [n1, n2, ih h1 h2]
+                simp [n2, ih h1 h2]
               · simp [b2] at h2
           · simp [a2] at h1
 
@@ -266,11 +266,11 @@ theorem mountLt_of_ancestor {a b : Oci.Mount}
   · rw [h1, h2]
     by_cases hc : List.count '/' rest = 0
     · right
-      refine ⟨by simp [List.count_cons, hc], ?_⟩
+      refine ⟨by simp [hc], ?_⟩
       have := strLt_append ['/'] hr
       simpa using this
     · left
-      have : List.count '/' ('/' :: rest) = List.count '/' rest + 1 := by simp [List.count_cons]
+      have : List.count '/' ('/' :: rest) = List.count '/' rest + 1 := by simp []
       rw [this]
       have : List.count '/' ['/'] = 1 := by decide
       rw [this]; omega
